@@ -113,12 +113,20 @@ func (con *Connection) DecryptedRead(b []byte) (int, error) {
 
 // Write writes bytes to the connection.
 // The written bytes are encrypted when possible.
-func (con *Connection) Write(b []byte) (int, error) {
+func (con *Connection) Write(b []byte) (n int, err error) {
 	if con.getEncrypter() != nil {
-		return con.EncryptedWrite(b)
+		n, err = con.EncryptedWrite(b)
+	} else {
+		n, err = con.connection.Write(b)
 	}
 
-	return con.connection.Write(b)
+	// A cryptographer which was negotiated by the request whose response
+	// was just written, encrypts from now on.
+	if s, ok := con.context.GetSessionForConnection(con.connection).(*session); ok {
+		s.didWrite()
+	}
+
+	return n, err
 }
 
 // Read reads bytes from the connection. The read bytes are decrypted when possible.
@@ -127,7 +135,16 @@ func (con *Connection) Read(b []byte) (int, error) {
 		return con.DecryptedRead(b)
 	}
 
-	return con.connection.Read(b)
+	n, err := con.connection.Read(b)
+	if n > 0 && con.buffered == nil && con.getDecrypter() != nil {
+		// A cryptographer was negotiated while this read was waiting for
+		// data, the received bytes are already encrypted.
+		received := append([]byte{}, b[:n]...)
+		con.buffered = bufio.NewReaderSize(io.MultiReader(bytes.NewReader(received), con.connection), 2+0xFFFF+16)
+		return con.DecryptedRead(b)
+	}
+
+	return n, err
 }
 
 // Close closes the connection and deletes the related session from the context.
